@@ -189,3 +189,62 @@ def pattern_shape() -> bool:
     ops = [str(op) for op, _ in items]
     return (len(items) == 3 and ops[0] == "AT" and ops[2] == "AT" and ops[1] == "SUBPATTERN"
             and items[1][1][0] == 1 and tree.state.groups == 2)
+
+
+# ---------------------------------------------------------------------------------------------
+# Real tools inside real sections (no stubs): concrete files assembled from menus; the solver enumerates the menu,
+# the bodies run untraced. Expected line = position of the (unique) offending statement in the whole file.
+PROLOGUES = ["", "a = 0\nprint(a)\n", "a = 0\n\n\nprint(a)\n"]
+FILLERS = ["k = 1\nprint(k)\n", "k = 1\nprint(k)\nk2 = k\nprint(k2)\n"]
+TARGETS = [("print(undefined_name)\n", "tifa"), ("zz = 1 / 0\n", "runtime"), ("print(undefined_name)\n", "runtime"),
+           ("v = (\n", "syntax"), ("  w = 1\n", "syntax")]
+
+
+def tools_in_sections(p0: bool, p1: bool, f0: bool, t0: bool, t1: bool, t2: bool, second: bool, independent: bool) -> bool:
+    """
+    A file `prologue / ##### Part 1 / S1 / ##### Part 2 / S2` where the offending statement sits in section 1 or 2 (the
+    other holds filler): the line reported by verify (syntax), tifa_analysis (initialization problem) and the sandbox
+    (runtime feedback location AND traceback text) is the statement's line in the ORIGINAL file, in independent and
+    cumulative mode.
+
+    pre: True
+    post: _
+    """
+    tick()
+    p, t = bits(p0, p1), bits(t0, t1, t2)
+    if p >= len(PROLOGUES) or t >= len(TARGETS):
+        return True
+    from crosshair.tracers import NoTracing
+    with NoTracing():
+        return _tools_concrete(PROLOGUES[p], FILLERS[1 if f0 else 0], TARGETS[t], second, independent)
+
+
+def _tools_concrete(prologue, filler, target, second, independent):
+    from pedal.tifa import tifa_analysis
+    from pedal.sandbox.commands import run
+    stmt, kind = target
+    s1, s2 = (filler, stmt) if second else (stmt, filler)
+    full = prologue + "##### Part 1\n" + s1 + "##### Part 2\n" + s2
+    want = full.split("\n").index(stmt.rstrip("\n")) + 1
+    r = Report()
+    contextualize_report(full, report=r)
+    separate_into_sections(independent=independent, report=r)
+    next_section(report=r)
+    if second:
+        next_section(report=r)
+    ok_syntax = verify(report=r)
+    if kind == "syntax":
+        fbs = [f for f in r.feedback if f.label in ("syntax_error", "indentation_error")]
+        res = len(fbs) == 1 and fbs[0].location.line == want
+    elif not ok_syntax and not (kind != "syntax"):
+        res = False
+    elif kind == "tifa":
+        issues = tifa_analysis(report=r).issues.get("initialization_problem", [])
+        res = [f.location.line for f in issues if f.fields.get("name") == "undefined_name"] == [want]
+    else:
+        run(report=r)
+        fbs = [f for f in r.feedback if f.category == "runtime"]
+        res = (len(fbs) == 1 and fbs[0].location is not None and fbs[0].location.line == want
+               and ("Line %d of file" % want) in fbs[0].message)
+    stop_sections(report=r)
+    return res and r.submission.main_code == full
